@@ -10,8 +10,8 @@ from fractions import Fraction
 from math import gcd
 
 WIDEN_STEPS = (1, 2, 3, 4, 8, 16, 32, 64, 256, 4096, 65536)
-RELAX_MAX = 1 << 20    # joins relax a one-sided constraint by at most this much (avoids type-range noise)
-FM_CAP = 600          # max constraints during an elimination step; beyond it the query answers "unknown"
+RELAX_MAX = 64    # joins relax a one-sided constraint by at most this much (avoids type-range noise)
+FM_CAP = 1500          # max constraints during an elimination step; beyond it the query answers "unknown"
 
 
 class Lin:
@@ -362,9 +362,29 @@ class System:
         old = self.iq.get(tuple(sorted(r.t.items())))
         if old is not None and old.c <= r.c:
             return True
+        # cheap: interval bounds of the single variables
+        lb = self._interval_lower(r)
+        if lb is not None and lb >= 0:
+            return True
         # refute: ineqs and (r <= -1)
         neg = norm_ineq(-r - 1)
         return not _feasible(self._cone(set(r.t)), extra=[neg])
+
+    def _interval_lower(self, r):
+        """lower bound of r from the single-variable constraints only (None = unbounded)"""
+        tot = r.c
+        for v, k in r.t.items():
+            lo = self.iq.get(((v, 1),))
+            hi = self.iq.get(((v, -1),))
+            if k > 0:
+                if lo is None:
+                    return None
+                tot += k * (-lo.c)          # v + c >= 0  ->  v >= -c
+            else:
+                if hi is None:
+                    return None
+                tot += k * hi.c             # -v + c >= 0 ->  v <= c
+        return tot
 
     def entails_eq(self, e):
         r = self.reduce(e)
@@ -427,7 +447,7 @@ class System:
                             a[0 if k > 0 else 1] += 1
                 if not cnt:
                     break
-                v = min(cnt, key=lambda x: cnt[x][0] * cnt[x][1] - cnt[x][0] - cnt[x][1])
+                v = min(cnt, key=lambda x: (cnt[x][0] * cnt[x][1] - cnt[x][0] - cnt[x][1], x))
                 cons = _eliminate(cons, v)
                 vs.discard(v)
         except Infeasible:
@@ -470,7 +490,7 @@ class System:
             if v in self.eqs:
                 # pivot: just drop its defining row (no other row mentions a pivot)
                 del self.eqs[v]
-        for v in vs:
+        for v in sorted(vs):
             # v is non-pivot; if some row mentions v, re-pivot that row on v and drop it
             users = [p for p, ex in self.eqs.items() if v in ex.t]
             if users:
@@ -545,6 +565,15 @@ def _pivot_rank(v):
     return 10
 
 
+HUGE = 1 << 33
+
+
+def _noise(q):
+    """a multi-variable consequence whose constant is of the order of a machine-integer range: an artefact of
+    projecting type ranges, never useful and expensive to carry (dropping a constraint is always sound)"""
+    return len(q.t) >= 2 and abs(q.c) >= HUGE
+
+
 def _eliminate(cons, v, drop_on_cap=False):
     pos, neg, rest = [], [], []
     for q in cons:
@@ -569,6 +598,8 @@ def _eliminate(cons, v, drop_on_cap=False):
                 continue
             if r is False:
                 raise Infeasible()
+            if drop_on_cap and _noise(r):
+                continue
             out.add(r)
     return list(out)
 
@@ -599,7 +630,7 @@ def _feasible(cons, extra=()):
                 os_ = set(one_sided)
                 cons = [q for q in cons if not any(v in os_ for v in q.t)]
                 continue
-            v = min(vs, key=lambda x: vs[x][0] * vs[x][1] - vs[x][0] - vs[x][1])
+            v = min(vs, key=lambda x: (vs[x][0] * vs[x][1] - vs[x][0] - vs[x][1], x))
             cons = _eliminate(cons, v)
     except Infeasible:
         return False
@@ -721,7 +752,9 @@ def join(a, b, extra_candidates=()):
         r.neqs.add(q)
     for q in a.cand | b.cand:
         cands.add(q)
-    for q in cands:
+    for q in sorted(cands, key=lambda x: x.key()):
+        if _noise(q):
+            continue
         ea, eb = a.entails_ge(q), b.entails_ge(q)
         if ea and eb:
             r.add_ge(q)
@@ -744,7 +777,7 @@ def widen(old, new, thresholds=False):
     r = System()
     for e in hull_eqs(old, new):
         r.add_eq(e)
-    for q in old.ineqs:
+    for q in sorted(old.ineqs, key=lambda x: x.key()):
         if new.entails_ge(q):
             r.add_ge(q)
         elif thresholds and len(q.t) == 1 and abs(q.c) <= 64:
